@@ -349,4 +349,55 @@ func loadCase(id int, seed int64, out *json.Encoder) {
 		out.Encode(ev)
 		_ = topKeys
 	}
+	// ---- every strict prefix of the top node (a write or a download cut short at any byte)
+	cuts := []int{}
+	if len(top) <= 160 {
+		for n := 0; n < len(top); n++ {
+			cuts = append(cuts, n)
+		}
+	} else {
+		for i := 0; i < 80; i++ {
+			cuts = append(cuts, rng.Intn(len(top)))
+		}
+		if nf == "bin" {
+			// ... and the boundaries of the three tables and of their count fields
+			_, r1, _ := decodeUvarintSeq(top)
+			_, r2, _ := decodeUvarintSeq(r1)
+			for _, b := range []int{len(top) - len(r1), len(top) - len(r2)} {
+				for d := -1; d <= 3; d++ {
+					if b+d >= 0 && b+d < len(top) {
+						cuts = append(cuts, b+d)
+					}
+				}
+			}
+		}
+	}
+	for _, n := range cuts {
+		b := append([]byte{}, top[:n]...)
+		name := nodeName(b)
+		st.m[name] = b
+		r2 := *root
+		r2.Link = &name
+		ev := loadEvent{Op: "lroot", ID: id, Pert: fmt.Sprintf("node-prefix-%d-of-%d", n, len(top)), NF: nf, Stored: nf, Keys: []int{}, FmtKnown: true,
+			HasLink: true, Present: true, BF: int(r2.BranchFactor), Height: int(r2.Height), Size: int(r2.Size)}
+		if d, okd := lenientDecode(nf, b); okd {
+			// (a prefix that still parses as a whole node would have to be judged by its contents; none does in either format)
+			ev.Decodable = true
+			ev.NK, ev.NV, ev.NL = len(d.Keys), len(d.Vals), d.LinkCount
+			for _, k := range d.Keys {
+				var v int
+				if err := json.Unmarshal(k, &v); err != nil {
+					ev.Decodable = false
+					break
+				}
+				ev.Keys = append(ev.Keys, v)
+			}
+		}
+		cfg := *base
+		ev.Res, ev.Msg = guard(func() error {
+			_, err := r2.LoadMast(ctx, &cfg)
+			return err
+		})
+		out.Encode(ev)
+	}
 }
